@@ -195,6 +195,9 @@ func safeRun(p *Prop, tape *Tape) (out *Outcome) {
 	return out
 }
 
+// Stack returns the current goroutine's stack (for recovered panics).
+func Stack() string { return string(debug.Stack()) }
+
 // PanicSite is panicSite for engines that recover panics themselves.
 func PanicSite(stack string) string { return panicSite(stack) }
 
